@@ -69,6 +69,7 @@ def cop(o):
     if k == 'mul': return '(OMul %s %s)' % (cnat(o[1]), cnat(o[2]))
     if k == 'result': return '(OResult %s %s %s %s)' % (cnat(o[1]), costr(o[2]), cz(o[3]), cz(o[4]))
     if k == 'corr': return '(OSetCorr %s %s %s)' % (cnat(o[1]), cnat(o[2]), cz(o[3]))
+    if k == 'corrc': return '(OSetCorrC %s %s (%s, %s, %s, %s))' % ((cnat(o[1]), cnat(o[2])) + tuple(cz(x) for x in o[3]))
     if k == 'append': return '(OAppendEns %s %s)' % (cnat(o[1]), cnat(o[2]))
     if k == 'archive': return 'OArchive'
     if k == 'add': return '(OAdd %s %s)' % (cnat(o[1]), clist(['(%s, %s)' % (cstr(t), cnat(i)) for t, i in o[2]]))
@@ -129,7 +130,7 @@ class ASession(object):
     # ---------------- observation
     def ctx(self): return self.context._context
     def sig_code(self, u, df):
-        key = (float(u), float(df))
+        key = (float(u), 'nan' if math.isnan(float(df)) else float(df))
         if key not in self.sig: self.sig[key] = len(self.sig)
         return self.sig[key]
     def t_leaf(self, n):
@@ -207,7 +208,9 @@ class ASession(object):
             if k == 'new':
                 self.objs = []; self.ars = []; gc.collect(); new_context(o[1])
             elif k == 'real':
-                x = core.ureal(1.0 + len(self.objs), o[2] / 16.0, float('inf') if o[3] < 0 else float(o[3]),
+                # every 4th declared real has the estimate exactly 0: products with it have a ZERO component of
+                # uncertainty for the other factor (the influence must still be archived with the result)
+                x = core.ureal(0.0 if len(self.objs) % 4 == 3 else 1.0 + len(self.objs), o[2] / 16.0, float('inf') if o[3] < 0 else float(o[3]),
                                label=o[1], independent=o[4]); new = [x]
             elif k == 'complex':
                 x = core.ucomplex(complex(1, 2), (o[2] / 16.0, o[3] / 16.0), float('inf') if o[4] < 0 else float(o[4]),
@@ -229,6 +232,7 @@ class ASession(object):
                     o[:] = [o[0], o[1], o[2], sg[0], sg[1]]
                 new = [core.result(x, o[2])]
             elif k == 'corr': core.set_correlation(o[3] / 8.0, self.objs[o[1]], self.objs[o[2]])
+            elif k == 'corrc': core.set_correlation(tuple(x / 8.0 for x in o[3]), self.objs[o[1]], self.objs[o[2]])
             elif k == 'append': self.lib.append_real_ensemble(self.objs[o[1]], self.objs[o[2]])
             elif k == 'archive': self.ars.append(pr.Archive())
             elif k == 'add': self.ars[o[1]].add(**{t: self.objs[i] for t, i in o[2]})
@@ -309,6 +313,8 @@ def kinds(s):
         elif isinstance(o, lib.UncertainComplex):
             a, b = rk(o.real), rk(o.imag)
             d['c' + a if a == b else 'cmixed'].append(i)
+            if a == b == 'elem' and not o.real._node.independent and not o.imag._node.independent \
+               and math.isinf(o.real._node.df) and math.isinf(o.imag._node.df): d.setdefault('cdep', []).append(i)
         else: d['other'].append(i)
     return d
 
@@ -320,6 +326,21 @@ def ens_pair(s, rng):
         for b in e:
             ua, ub = s.objs[a]._node.uid, s.objs[b]._node.uid
             if ua != ub and ub in s.objs[a]._node.ensemble: return a, b
+    return None
+
+def rand4(rng):
+    """a 4-tuple of coefficient codes (r*8) with explicit zeros, not all zero"""
+    while True:
+        r = [rng.choice([0, 0, -4, -2, 2, 4]) for _ in range(4)]
+        if any(r): return r
+
+def cdep_pair(s, rng):
+    c = kinds(s).get('cdep', [])
+    rng.shuffle(c)
+    for a in c:
+        for b in c:
+            ua = {s.objs[a].real._node.uid, s.objs[a].imag._node.uid}; ub = {s.objs[b].real._node.uid, s.objs[b].imag._node.uid}
+            if a != b and not (ua & ub): return a, b
     return None
 
 def grow_ensemble(s, rng):
@@ -352,6 +373,7 @@ def gen_history(rng, k0, nops, malformed):
         if r < 0.06: return ['ens', [(pick(LABELS), rng.randint(1, 40)) for _ in range(rng.randint(2, 4))], rng.choice([-1, 4, 9])]
         if r < 0.45: return ['real', pick(LABELS), rng.randint(1, 40), rng.choice([-1, -1, 3, 7]), rng.random() < 0.5]
         if r < 0.62: return ['real', pick(LABELS), rng.randint(1, 40), -1, False]
+        if r < 0.70: return ['complex', pick(LABELS), rng.randint(1, 40), rng.randint(1, 40), -1, False]
         if r < 0.92: return ['complex', pick(LABELS), rng.randint(1, 40), rng.randint(1, 40), rng.choice([-1, -1, 5]), rng.random() < 0.5]
         return [rng.choice(['const', 'constc', 'other'])]
     for _ in range(rng.randint(2, 5)): s.do(decl())
@@ -369,6 +391,8 @@ def gen_history(rng, k0, nops, malformed):
             if c is not None: o = ['result', c, pick(LABELS)]
         elif r < 0.30 and rng.random() < 0.15 and kinds(s).get('ens'):
             grow_ensemble(s, rng); continue
+        elif r < 0.30 and rng.random() < 0.3 and cdep_pair(s, rng):
+            a, b = cdep_pair(s, rng); o = ['corrc', a, b, rand4(rng)]
         elif r < 0.30:
             ep = ens_pair(s, rng)
             if ep and rng.random() < 0.5: o = ['corr', ep[0], ep[1], rng.choice([-4, -2, 2, 4])]
@@ -527,6 +551,14 @@ EXTRA.append(
      ['real', None, 5, 13, False], ['append', 1, 4], ['mul', 4, 0], ['write', 0, 'xml'], ['read', 1],
      ['archive'], ['add', 4, [('y', 2), ('b', 1)]], ['write', 4, 'pickle'], ['new', 14], ['read', 0], ['read', 2], ['new', 15], ['read', 2], ['read', 0]])
 
+# coefficients revised AFTER the dump to explicit zeros / other values / new pairs, then load and copy with the numbers alive
+EXTRA.append(
+    [['complex', 'z1', 5, 6, -1, False], ['complex', 'z2', 3, 8, -1, False], ['complex', None, 4, 4, -1, False], ['corrc', 0, 1, [4, 4, 4, 4]],
+     ['mul', 0, 1], ['result', 3, 'q'], ['archive'], ['add', 0, [('z1', 0), ('z2', 1), ('q', 4)]], ['write', 0, 'json'],
+     ['corrc', 0, 1, [2, 0, 0, -4]], ['corrc', 0, 2, [0, 2, 0, 0]], ['read', 0], ['copy', 0], ['extract', 1, ['z1', 'z2']],
+     ['corrc', 1, 0, [0, 0, 4, 0]], ['write', 0, 'xml'], ['read', 1], ['archive'], ['add', 4, [('z1', 0), ('w', 2)]], ['write', 4, 'pickle'],
+     ['corrc', 0, 2, [0, 0, 0, 2]], ['read', 2], ['new', 14], ['read', 0], ['read', 2], ['new', 15], ['read', 2], ['read', 0]])
+
 def gen_multi(rng, k0):
     """writer session: several archives written at different times sharing dependent influence quantities, with
     correlations declared between the writes; then reader sessions (fresh context id, sometimes the writer's id
@@ -537,6 +569,11 @@ def gen_multi(rng, k0):
     def new_dep():
         s.do(['real', pick([None, None, 'x', 'y']), rng.randint(1, 40), -1, False]); deps.append(len(s.objs) - 1)
     for _ in range(rng.randint(3, 5)): new_dep()
+    cz = []
+    if rng.random() < 0.6:                 # two dependent complex numbers: their 4 coefficients are revised after dumps
+        for _ in range(2):
+            s.do(['complex', pick([None, 'z']), rng.randint(1, 40), rng.randint(1, 40), -1, False]); cz.append(len(s.objs) - 1)
+        s.do(['corrc', cz[0], cz[1], [rng.choice([-4, -2, 2, 4]) for _ in range(4)]])
     ens = []
     if rng.random() < 0.6:                 # a finite-dof ensemble: the archives below hold PARTS of it
         n0 = len(s.objs)
@@ -556,6 +593,9 @@ def gen_multi(rng, k0):
                 s.do(['corr', a, b, rng.choice([-6, -4, -2, 1, 2, 4, 6])])
         if rng.random() < 0.4: new_dep()
         members = rng.sample(deps, rng.randint(1, min(3, len(deps))))
+        if cz:
+            if t > 0 and rng.random() < 0.6: s.do(['corrc', cz[0], cz[1], rand4(rng)])      # revised between the writes
+            members += rng.sample(cz, rng.randint(1, 2))
         if ens:
             members += rng.sample(ens, rng.randint(1, len(ens) - 1))           # a strict part of the ensemble
             if rng.random() < 0.5:
@@ -572,10 +612,11 @@ def gen_multi(rng, k0):
         s.do(['add', ar, [('t%d' % j, m) for j, m in enumerate(members)]])
         s.do(['write', ar, rng.choice(['pickle', 'json', 'json', 'xml'])])
     ndocs = len(s.docs)
+    if cz and rng.random() < 0.7: s.do(['corrc', cz[0], cz[1], rand4(rng)])               # revised after the last dump
     if ens and rng.random() < 0.5:
         x = grow_ensemble(s, rng)
         if x is not None: s.do(['mul', x, ens[0]])
-    if rng.random() < (0.7 if ens else 0.4):                 # shared leaves alive: reload in the writer session
+    if rng.random() < (0.7 if (ens or cz) else 0.4):         # shared leaves alive: reload in the writer session
         for d in rng.sample(range(ndocs), rng.randint(1, ndocs)): s.do(['read', d])
     used = [k0]
     for _ in range(rng.randint(1, 2)):
